@@ -41,6 +41,17 @@ for part in ["re", "eps1", "eps2", "eps3"]:  # 2nd/3rd-order parts: timeout > 24
     add("c02_grid", f"c02_grid_div_hyperhyperdual64_{part}", "C02",
         f"hyperhyperdual64: part {part} of (a/b)*b == that part of a exactly", GRID, "thorough")
 
+# ------------------------------------------------------------------ C03 (iterator sums / products)
+IT = ("BOUNDED: iterator length <= 3 (lengths 0,1,2,3 in one harness); values fully symbolic (all f64 bit patterns, NaN parts "
+      "compared as 'both NaN'); kani::unwind(5); solver cvc5")
+for ty in ["dual64", "dual2_64", "hyperdual64", "dual3_64", "hyperhyperdual64", "dualsvec64_2"]:
+    add("c03_iter", f"c03_iter_sum_{ty}", "C03",
+        f"{ty}: iter().sum() and into_iter().sum() == ((zero() + x0) + x1) + x2 in every part; empty iterator gives zero()",
+        IT, "quick", flags=NOOVF)
+    add("c03_iter", f"c03_iter_product_{ty}", "C03",
+        f"{ty}: iter().product() and into_iter().product() == ((one() * x0) * x1) * x2 in every part; empty iterator gives one()",
+        IT, "quick", flags=NOOVF)
+
 # ------------------------------------------------------------------ C04
 add("c04_nderiv", "c04_nderiv_table", "C04",
     "NDERIV == sum of derivative orders over nesting levels for the 10 listed types (+ 5 extra)",
@@ -120,6 +131,24 @@ for ty in ["dual64", "dual2_64", "hyperdual64", "dual3_64"]:
     add("c06_nonint", f"c06_nonint_scalar_{ty}", "C06",
         f"{ty}: (a op s).re for scalar s, op in + - * /, independent of derivative parts and equal to a.re op s",
         CVC, "quick" if ty == "dual64" else "thorough", flags=NOOVF)
+
+AP = "loop-free; real parts of operands and tolerances not NaN (ASSUMED), every derivative part (operands and tolerance arguments) all bit patterns"
+for ty in ["dual64", "dual2_64"]:
+    add("c06_approx", f"c06_approx_absdiff_{ty}", "C06",
+        f"{ty}: AbsDiffEq::abs_diff_eq gives the same bool as f64::abs_diff_eq on the real parts, whatever the derivative parts", AP, "quick", flags=NOOVF)
+    add("c06_approx", f"c06_approx_ulps_{ty}", "C06",
+        f"{ty}: UlpsEq::ulps_eq gives the same bool as f64::ulps_eq on the real parts (max_ulps symbolic)", AP, "quick", flags=NOOVF)
+    add("c06_approx", f"c06_approx_relative_{ty}_grid", "C06",
+        f"{ty}: RelativeEq::relative_eq gives the same bool as f64::relative_eq on the real parts",
+        "BOUNDED: operand real parts integers in -4..=4, tolerance real parts in {0,0.25,0.5,1,2} (full domain does not finish: multiplier equivalence); derivative parts all bit patterns",
+        "quick", flags=NOOVF)
+add("c06_approx", "c06_approx_defaults", "C06",
+    "default_epsilon / default_max_relative / default_max_ulps of Dual64 (and default_epsilon of Dual2_64) are the f64 defaults with zero derivative parts",
+    "none (constants)", "quick")
+for ty in ["dual64", "hyperdual64"]:
+    add("c06_approx", f"c06_from_primitive_{ty}", "C06",
+        f"{ty}: FromPrimitive::from_{{i8..i128,u8..u128,isize,usize,f32,f64}} return Some with re == the f64 conversion (bit-exact; NaN -> NaN) and all derivative parts +0.0",
+        "none (loop-free, full domain of every primitive type)", "quick", flags=NOOVF)
 
 # ------------------------------------------------------------------ C11
 TYS11 = ["dual64", "dual2_64", "dualsvec64_2", "dual2svec64_2", "dual32", "dual2_32", "dualsvec32_2", "dual2svec32_2"]
